@@ -460,7 +460,9 @@ def generate(run_seed, tier_cfg):
     elif topo == "T8":
         # per-dimension transform dicts composed into per-table transforms: the dict object
         # written for the rows of one table is the columns dict of another
-        name = rnd.choice(g["d2"]) if rnd.random() < 0.8 else rnd.choice(g["nd3"])
+        roll = rnd.random()
+        name = rnd.choice([n for n in g["mrins"] if ix[n]["ndim"] >= 2]) if roll < 0.2 else (
+            rnd.choice(g["d2"]) if roll < 0.85 else rnd.choice(g["nd3"]))
         args["r0"] = _response_arg(rnd, knobs, name)
         meta = _meta_for(args["r0"])
         rows, cols = meta["dims"][-2], meta["dims"][-1]
@@ -492,18 +494,19 @@ def generate(run_seed, tier_cfg):
         if rnd.random() < 0.5:
             # two analyses that differ in one setting but share the nested `elements` /
             # `order` / `insertions` objects of a dimension (a copied-and-edited analysis)
-            d0 = json.loads(args["d0"]["json"])
+            which, axis = rnd.choice([("d0", "rows_dimension"), ("d1", "columns_dimension")])
+            d0 = json.loads(args[which]["json"])
             shared_keys = [k for k in ("elements", "order", "insertions") if k in d0]
             if shared_keys:
                 for k in shared_keys:
                     args["e_" + k] = {"kind": "transforms", "json": json.dumps(d0[k], separators=(",", ":"))}
                 rest = {k: {"lit": json.dumps(v)} for k, v in d0.items() if k not in shared_keys}
                 tplA = dict(rest, **{k: "e_" + k for k in shared_keys})
-                tplB = dict({k: "e_" + k for k in shared_keys}, prune={"lit": json.dumps(not d0.get("prune", False))})
-                if "insertions" in d0 and "insertions" not in shared_keys:
-                    pass
-                args["t4"] = {"kind": "transforms", "compose": {"rows_dimension": tplA}}
-                args["t5"] = {"kind": "transforms", "compose": {"rows_dimension": tplB}}
+                # the edited copy keeps some of the nested objects and drops the rest
+                keep = [k for k in shared_keys if rnd.random() < 0.6] or [rnd.choice(shared_keys)]
+                tplB = dict({k: "e_" + k for k in keep}, prune={"lit": json.dumps(not d0.get("prune", False))})
+                args["t4"] = {"kind": "transforms", "compose": {axis: tplA}}
+                args["t5"] = {"kind": "transforms", "compose": {axis: tplB}}
                 specs["s4"] = _cube_spec(rnd, "r0", "t4", scal)
                 specs["s5"] = _cube_spec(rnd, "r0", "t5", scal)
     else:
